@@ -43,6 +43,36 @@ func directedSmallTail(c *mon.Ctx) int {
 	return t
 }
 
+// directedPick maps the j-th directed case of a check onto the enumeration: the small families at the end
+// completely first (j < directedSmallTail), then a pseudo-random (hashed, seed-dependent) walk over the two big
+// families. NOT an arithmetic stride: the big families are mixed-radix products (27 attribute types x 166 texts x
+// variants; positions x operations), and a stride that shares a factor with a radix only ever visits a fraction of one
+// dimension (a stride of 9 over the DN-text family reached 3 of its 27 attribute types).
+func directedPick(c *mon.Ctx, j int) int {
+	dC, tail := directedCount(c), directedSmallTail(c)
+	if j < tail {
+		return dC - 1 - j
+	}
+	rest := dC - tail
+	if rest <= 0 {
+		return -1
+	}
+	return int((uint64(j-tail)*11400714819323198485 + uint64(c.Seed)*0x9E3779B97F4A7C15 + 0x632BE59BD9B4E019) % uint64(rest))
+}
+
+// directedSampled reports whether index k of the big families belongs to a 1-in-n hashed sample (for loops that walk
+// the whole enumeration and keep a fraction).
+func directedSampled(c *mon.Ctx, k, n int) bool {
+	if n <= 1 {
+		return true
+	}
+	h := (uint64(k)+uint64(c.Seed)*0x9E3779B97F4A7C15)*11400714819323198485 ^ 0x632BE59BD9B4E019
+	h ^= h >> 29
+	h *= 0xBF58476D1CE4E5B9
+	h ^= h >> 32
+	return h%uint64(n) == 0
+}
+
 func directedCount(c *mon.Ctx) int {
 	sortFams()
 	t := 0
